@@ -42,6 +42,8 @@ impl Expression {
 
     /// Convert to a `Value`.
     pub fn try_evaluate<'c>(&'c self, runtime: &'c dyn Runtime) -> Option<ValueCow<'c>> {
+        #[cfg(feature = "verif-hooks")]
+        crate::verif::yield_point("expr.evaluate");
         match self {
             Expression::Literal(ref x) => Some(ValueCow::Borrowed(x)),
             Expression::Variable(ref x) => {
@@ -53,6 +55,8 @@ impl Expression {
 
     /// Convert to a `Value`.
     pub fn evaluate<'c>(&'c self, runtime: &'c dyn Runtime) -> Result<ValueCow<'c>> {
+        #[cfg(feature = "verif-hooks")]
+        crate::verif::yield_point("expr.evaluate");
         let val = match self {
             Expression::Literal(ref x) => ValueCow::Borrowed(x),
             Expression::Variable(ref x) => {
